@@ -1,6 +1,6 @@
 (* Main.v -- dispatch of one protocol line to the stream runners.
    To add a stream: import its Run file and add its (keyword, runner) pairs. *)
-From RW Require Import Base.Bytes Run.Wire Run.RunCodec Run.RunSeg Run.RunWal Run.RunMig Run.RunFs Run.RunHist Run.RunRdm Run.RunVfy Run.RunConc.
+From RW Require Import Base.Bytes Run.Wire Run.RunCodec Run.RunSeg Run.RunWal Run.RunMig Run.RunFs Run.RunHist Run.RunRdm Run.RunVfy Run.RunConc Run.RunDump.
 Open Scope N_scope.
 
 Definition handlers : list (str * (list str -> str)) :=
@@ -16,7 +16,8 @@ Definition handlers : list (str * (list str -> str)) :=
     ([102; 104; 105; 115; 116], run_fhist); (* "fhist" *)
     ([114; 100; 109], run_rdm);     (* "rdm" *)
     ([118; 102; 121], run_vfy);     (* "vfy" *)
-    ([115; 99; 104; 101; 100], run_sched) (* "sched" *)
+    ([115; 99; 104; 101; 100], run_sched); (* "sched" *)
+    ([100; 108], run_dl)           (* "dl" *)
   ].
 
 Fixpoint dispatch (hs : list (str * (list str -> str))) (cmd : str) (args : list str) : str :=
